@@ -1,5 +1,7 @@
 package graphql
 
+import "errors"
+
 var zzC12Requests = []struct {
 	text string
 	vars map[string]interface{}
@@ -16,6 +18,11 @@ var zzC12Requests = []struct {
 	{"{ n{id} u{__typename} o{o{x y} ol: o{id}} }", nil},
 	{"{ ...on Nope{a} ...Missing }", nil},
 	{"{ a @skipp(if:true) @include(iff:true) }", nil},
+	{"{ __type(name:\"Query\"){ fields{ name args{ name defaultValue type{ name kind ofType{ name } } } } } }", nil},
+	{"{ io r lnn(l:[1]) }", nil},
+	{"{ p:o{y} q:ol{y x} r:o{o{y}} s:o{y} }", nil}, // y: deferred results that fail
+	{"{ c o{ z } }", nil},                           // several suggestions at the same distance
+	{"query($in: In){ io(in:$in) }", map[string]interface{}{"in": map[string]interface{}{"zz": 1, "yy": 2, "xx": 3}}},
 }
 
 func zzErrorsEqual(a, b *Result) bool {
@@ -55,6 +62,11 @@ func ZZ_C12_request() {
 		if field == "id" {
 			// deferred results
 			return func() (interface{}, error) { return parent + ".id", nil }, nil, true
+		}
+		if field == "y" {
+			// deferred results that fail
+			path := zzPathString(p.Info.Path)
+			return func() (interface{}, error) { return nil, errors.New("late " + path) }, nil, true
 		}
 		return nil, nil, false
 	}
